@@ -324,7 +324,8 @@ Theorem T_C10mp_nonseekable_no_silent_difference_adaptive : forall K data narrow
 Proof. exact client_nonseekable_no_silent. Qed.
 Print Assumptions T_C10mp_nonseekable_no_silent_difference_adaptive.
 
-(* EQUAL ANSWERS: "stream = memory on a non-seekable stream" is false ... *)
+(* EQUAL ANSWERS: "stream = memory on a non-seekable stream" is false (witness: the timestamp below, an
+   InputOutputError on a well-formed document) ... *)
 Theorem T_C10mp_nonseekable_refuted :
   ~ (forall K data narrow widen fuel o ops,
        (8 <= K)%nat -> fits_streamoff data -> bytes_ok data -> (length data < fuel)%nat ->
@@ -333,15 +334,16 @@ Theorem T_C10mp_nonseekable_refuted :
 Proof. exact seq_nonseekable_refuted. Qed.
 Print Assumptions T_C10mp_nonseekable_refuted.
 
-(* ... by an EXCEPTION ON A WELL-FORMED DOCUMENT: SkipValue of a value ending beyond the cached window
-   (ParsingError "Unexpected end of input archive"); reading the same value is fine *)
-Example T_C10mp_nonseekable_witness_skip :
-  mps_run_bsr no_narrow id_widen 8 (stream_of ns_skip_doc false) 20 throw_all [RdSkip; RdInt u8t] = Ok [AErrOf EParse] /\
+(* SkipValue is no longer a way to fail: a value ending beyond the cached window, nested containers and
+   mismatching targets skipped across several chunks are in the class (before e491e27: ParsingError) *)
+Example T_C10mp_nonseekable_skip_works :
+  mps_run_bsr no_narrow id_widen 8 (stream_of ns_skip_doc false) 20 throw_all [RdSkip; RdInt u8t] =
+    Ok (str_run no_narrow id_widen ns_skip_doc throw_all [RdSkip; RdInt u8t]) /\
   str_run no_narrow id_widen ns_skip_doc throw_all [RdSkip; RdInt u8t] = [AOkAt VUnit 11; AOkAt (VInt 42) 12] /\
-  mps_run_bsr no_narrow id_widen 8 (stream_of ns_skip_doc false) 20 throw_all [RdStr; RdInt u8t] =
-    Ok (str_run no_narrow id_widen ns_skip_doc throw_all [RdStr; RdInt u8t]).
+  nonseek_ok no_narrow id_widen 8 ns_skip_doc 20 throw_all [RdSkip; RdInt u8t] = true /\
+  nonseek_ok no_narrow id_widen 8 straddle_doc 100 skip_all [RdSkip; RdSkip; RdNil; RdSkip; RdStr; RdSkip; RdSkip] = true.
 Proof. exact ns_skip_witness. Qed.
-Print Assumptions T_C10mp_nonseekable_witness_skip.
+Print Assumptions T_C10mp_nonseekable_skip_works.
 
 (* ... and true whenever no SetPosition of the run leaves the cached window.
    nonseek_ok .. K data fuel o ops = along the run of the reads on the chunked reader over the non-seekable
@@ -363,8 +365,8 @@ Theorem T_C10mp_nonseekable_adaptive_outside : forall K data narrow widen fuel o
 Proof. exact client_nonseekable_outside. Qed.
 Print Assumptions T_C10mp_nonseekable_adaptive_outside.
 
-(* the three formerly silent cases (K = 8; with chunk_size 256 put 248 more bytes in front), as the model of
-   the repaired code answers them:
+(* the remaining ways to leave the class — backward seeks across a chunk boundary — all end in
+   InputOutputError (K = 8; with chunk_size 256 put 248 more bytes in front):
    (1) a timestamp whose ext header straddles a chunk boundary (0xD6 last byte of a chunk, 0xFF first of the
        next): InputOutputError (before 24799d8: seconds 0x00050102 instead of 5, no exception) *)
 Example T_C10mp_nonseekable_witness_timestamp :
@@ -387,7 +389,7 @@ Example T_C10mp_nonseekable_witness_value_type :
 Proof. exact ns_type_witness. Qed.
 Print Assumptions T_C10mp_nonseekable_witness_value_type.
 
-(* (3) the reader's own SetPosition (the scopes' seek back to mStartPos) across a chunk boundary:
+(* (3) the reader's own SetPosition (the scopes' seek back to mStartPos) back across a chunk boundary:
        InputOutputError (before: ignored, reading went on where it was) *)
 Example T_C10mp_nonseekable_witness_rewind :
   mps_run_bsr no_narrow id_widen 8 (stream_of ns_rewind_doc false) 20 throw_all
@@ -411,11 +413,14 @@ Print Assumptions T_C10mp_nonseekable_examples_in_class.
 
 (* (the scope destructors of the archive go on skipping from there inside try/catch.)
    skip_at_impl  = MpScopeModel: the string reader's SkipValueImpl with the position at the throw
-   sskip_at_impl = MpStreamProofs: the same for the stream reader, whose ReadExtSize consumes the length field
+   sskip_at_impl = MpStreamProofs: the same for the stream reader, which since fix e491e27 moves over a value's
+                   bytes by reading through them (SkipBytes) and so stands at the END OF THE DATA when they are cut short
    apost         = same outcome, and at a throw the reference reader's position is that suffix.
-   Every accepted run of the stream reader's SkipValueImpl ends as sskip_at_impl says: *)
+   Every accepted run of the stream reader's SkipValueImpl ends as sskip_at_impl says (checked against the real
+   reader by the `p` lines of run_mpstream): *)
 Theorem T_C10mp_skip_throw_position : forall K data, (8 <= K)%nat -> fits_streamoff data -> bytes_ok data ->
-  forall f d, Suffix data d -> wp K data (mps_skip_impl f) (st data d) (apost data (sskip_at_impl f d)).
+  forall lf f d, (length data < lf)%nat -> Suffix data d ->
+  wp K data (mps_skip_impl lf f) (st data d) (apost data (sskip_at_impl f d)).
 Proof. exact skip_throw_position. Qed.
 Print Assumptions T_C10mp_skip_throw_position.
 
@@ -424,11 +429,11 @@ Theorem T_C10mp_skip_throw_same_position_refuted : ~ (forall f d, sskip_at_impl 
 Proof. exact skip_throw_same_refuted. Qed.
 Print Assumptions T_C10mp_skip_throw_same_position_refuted.
 
-(* ... exactly when the string reader threw right behind the type byte of a str 8/16/32, bin 8/16/32 or
-   ext 8/16/32 whose length field is complete and whose payload is cut short (len_field_cut): the stream
-   reader then stands behind the length field (at_rel).  Same error class always. *)
+(* ... exactly when the string reader threw behind the type byte of a value whose header is complete and
+   whose own bytes (payload of a str / bin / ext, bytes of a number) are cut short, with at least one byte
+   left (payload_cut): the stream reader then stands at the end of the data (at_rel).  Same error class always. *)
 Theorem T_C10mp_skip_throw_same_position_outside : forall f d,
-  len_field_cut f d = false -> sskip_at_impl f d = skip_at_impl f d.
+  payload_cut f d = false -> sskip_at_impl f d = skip_at_impl f d.
 Proof. exact skip_throw_outside. Qed.
 Print Assumptions T_C10mp_skip_throw_same_position_outside.
 
@@ -437,10 +442,13 @@ Proof. exact skip_at_rel. Qed.
 Print Assumptions T_C10mp_skip_throw_related.
 
 Example T_C10mp_skip_throw_witness :
-  sskip_at_impl 10 [0xD9; 5; 0x61] = AErr EParse [0x61] /\ skip_at_impl 10 [0xD9; 5; 0x61] = AErr EParse [5; 0x61] /\
-  len_field_cut 10 [0xD9; 5; 0x61] = true /\
-  sskip_at_impl 10 [0x92; 1; 0xC5; 0; 3; 0x61] = AErr EParse [0x61] /\
-  skip_at_impl 10 [0x92; 1; 0xC5; 0; 3; 0x61] = AErr EParse [0; 3; 0x61].
+  sskip_at_impl 10 [0xD9; 5; 0x61] = AErr EParse [] /\ skip_at_impl 10 [0xD9; 5; 0x61] = AErr EParse [5; 0x61] /\
+  payload_cut 10 [0xD9; 5; 0x61] = true /\
+  sskip_at_impl 10 [0x92; 1; 0xC5; 0; 3; 0x61] = AErr EParse [] /\
+  skip_at_impl 10 [0x92; 1; 0xC5; 0; 3; 0x61] = AErr EParse [0; 3; 0x61] /\
+  sskip_at_impl 10 [0xCD; 1] = AErr EParse [] /\ skip_at_impl 10 [0xCD; 1] = AErr EParse [1] /\
+  sskip_at_impl 10 [0xDA; 1] = skip_at_impl 10 [0xDA; 1] /\ sskip_at_impl 10 [0xC1; 0] = skip_at_impl 10 [0xC1; 0] /\
+  sskip_at_impl 10 [0x92] = skip_at_impl 10 [0x92].
 Proof. exact skip_throw_witness. Qed.
 Print Assumptions T_C10mp_skip_throw_witness.
 
